@@ -27,6 +27,22 @@ CHECKS = {
    text="FiltersEqual and every real Equals/Accept (nullFilter, allFilter, notFilter, andFilter, orFilter, nsNameFilter, selectorFilter, fnFilter, nodeFilter, involvedFilter, serviceForFilter, the seven PodsFilter, ServicesFilter) are executed symbolically on two independently built filters with solver-chosen structure and symbolic arguments plus a symbolic object; z3 shows that whenever equality is reported both filters agree on the object, that nil / non-comparable cases follow the contract, and that filters built twice from the same arguments (workload filters also from the reversed argument order) compare equal, for every value within the bound.",
    note="Bounds: generic terms to depth 2 (thorough 3) over {Null, All, arbitrary leaf, NSName, Labels, FN, Not, And, Or} with arity <=2; NSName <=2 (3) ids per side; Labels/LabelSelector/Selector pairs with <=2 pairs and <=1 expression; typed pairs one workload per side (same-argument and reversed-order checks with <=2 workloads). reflect.DeepEqual is modelled structurally (documented rules); label keys are assumed non-empty; selectors with two requirements on the same key are outside the claim.",
    ref="DESIGN.md §4 C17"),
+ "C06": dict(
+   text="The real filterSubscription.run with its real private cache actor runs below a fake parent subscription whose cache is a second real cache actor mutated by the environment; the environment performs K actions (parent ready, arbitrary parent change with symbolic type/key/version, Refilter to one of four arbitrary filters incl. a non-comparable one) in every order, and every interleaving of the goroutines is explored (sleep-set partial-order reduction). At every quiescent point z3 shows the cache equals the parent content filtered by the most recently set filter at the parent's versions, and that the subscription's own events replay to its own cache.",
+   note="Bounds: quick K<=3 actions after <=1 pre-existing parent object, thorough K<=4; immediate and deferred variants; one filtered level (nesting = composition with C05/C08, argued in DESIGN.md). Filters are arbitrary pure functions. Schedules: all interleavings of completed communications; local steps run first; data-race freedom (needed by the reduction) is checked with vector clocks.",
+   ref="DESIGN.md §4 C06"),
+ "C07": dict(
+   text="Same real code as C06 in the property's situation: a ready filtered subscription over <=2 parent objects with nothing in flight, then Refilter(f2) and optionally Refilter(f3) with filters from {three arbitrary filters, accept-all, accept-none}; z3 shows the events observed are exactly one Delete per cached object the new filter rejects and one Create per parent object newly accepted, nothing for an equal filter, and that returning to the first filter restores the first view.",
+   note="Bounds: parent content <=2 (thorough 3) objects with symbolic keys/versions; 1-2 refilter steps over 5 filters (all ordered pairs, and triples ending anywhere). Arbitrary filters are uninterpreted functions, which subsumes equal/overlapping/disjoint families.",
+   ref="DESIGN.md §4 C07"),
+ "C08": dict(
+   text="Real filterSubscription.run (immediate and deferred) driven by the property's action alphabet {parent ready, Refilter(equal), Refilter(new), parent change} in every order up to K, with two concurrent observers: one waits for Ready() and immediately reads the cache, one waits for the first event. z3 shows Ready closes iff the parent is ready (and, deferred, a filter was supplied), the read made on observing Ready is the filtered parent content of some moment, and the first event is delivered only after Ready closed.",
+   note="Bounds: quick K<=3, thorough K<=4, <=1 pre-existing parent object. The controller clause (first list fully applied / failed first list never ready) is covered by the C03/C14 harnesses.",
+   ref="DESIGN.md §4 C08"),
+ "C16": dict(
+   text="Real NewMonitor/monitor.run against a fake subscription; the environment performs K actions from {subscription ready, event of symbolic type and object, close subscription, close monitor} in every order while handler callbacks may be arbitrarily slow (a scheduling point inside every callback); all interleavings explored. z3/the engine show: OnInitialize at most once, first, with the cache content; exactly one callback per received event matching type and object in order; callbacks never overlap; none after Done; none if never ready.",
+   note="Bounds: quick K<=4, thorough K<=5 actions; events <=K. Typed monitors are covered under C20.",
+   ref="DESIGN.md §4 C16"),
 }
 NOT_APPLICABLE = {}
 PENDING = "check under construction in this session: harness not yet registered (no claim is made)"
